@@ -61,7 +61,7 @@ func c12S256(v string) string {
 }
 
 func TestVerifC12(t *testing.T) {
-	rep := newVerifReport("C12", "full corner product: caller client (secret clients A,B,X-with-special-characters; secret-less P,Q) x secret right/wrong/absent/other-client's x verifier right/wrong/absent x code (fresh with S256 challenge, fresh with default-method challenge, fresh without challenge, issued to the other client, expired re-signed copy, payload-tampered, foreign-key re-signed, other users) x redirect same/different x credentials in header (also URL-encoded) or form; codes come from the real authorize endpoint with two logged-in users; released tokens are decoded (iss, aud, sub, nonce, exp, JWKS signature) and the access token is taken to userinfo; class = (caller kind, secret, verifier, code kind, redirect, placement, outcome)")
+	rep := newVerifReport("C12", "full corner product: caller client (secret clients A,B,X-with-special-characters; secret-less P,Q) x secret right/wrong/absent/other-client's x verifier right/wrong/absent x code (fresh with S256 challenge, fresh with default-method challenge, fresh without challenge, issued to the other client, re-signed copies expired 2 s .. 17 h ago, payload-tampered, foreign-key re-signed, other users) x redirect same/different x credentials in header (also URL-encoded) or form; codes come from the real authorize endpoint with two logged-in users; released tokens are decoded (iss, aud, sub, nonce, exp, JWKS signature) and the access token is taken to userinfo; class = (caller kind, secret, verifier, code kind, redirect, placement, outcome)")
 	defer rep.Finish()
 	clients := []c12Client{{"client-a", "secret-a"}, {"client-b", "secret-b"}, {"cl ient+x&y", "se cret%+/="}, {"pkce-p", ""}, {"pkce-q", ""}}
 	var y strings.Builder
@@ -159,12 +159,19 @@ func TestVerifC12(t *testing.T) {
 		}
 		var claims verifClaims
 		json.Unmarshal(p, &claims)
-		exp := claims.clone()
-		exp["exp"] = time.Now().Add(-time.Minute).Unix()
-		exp["iat"] = time.Now().Add(-10 * time.Minute).Unix()
-		d := *c
-		d.Name, d.Code, d.Valid = "expired:"+c.Client, verifMint(exp, ca), false
-		derived = append(derived, &d)
+		// expired copies at several ages: a code is dead from the second after its expiry, not a grace period later
+		// (monotone: by the time a copy is presented it is only older)
+		for _, age := range []time.Duration{2 * time.Second, 25 * time.Second, 55 * time.Second, 90 * time.Second, 10 * time.Minute, 17 * time.Hour} {
+			exp := claims.clone()
+			exp["exp"] = time.Now().Add(-age).Unix()
+			exp["iat"] = time.Now().Add(-age - 5*time.Minute).Unix()
+			if _, has := exp["nbf"]; has {
+				exp["nbf"] = exp["iat"]
+			}
+			d := *c
+			d.Name, d.Code, d.Valid = fmt.Sprintf("expired-%s:%s", age, c.Client), verifMint(exp, ca), false
+			derived = append(derived, &d)
+		}
 		d2 := *c
 		d2.Name, d2.Code, d2.Valid = "foreignkey:"+c.Client, verifMint(claims, verifSigner("foreign_rsa2048")), false
 		derived = append(derived, &d2)
